@@ -35,10 +35,18 @@ func ZzC16Processor() {
 
 	var order []int
 	onErr := 0
+	ranAfterError := 0
 	w.OnError = func(_ context.Context, err error) {
 		onErr++
 		zzAssert(err == zzErrBoom, "the callback's own error is reported")
 		zzAssert(!zzChanClosed(w.done), "error reported before the consumer is marked as finished")
+		// a producer that is still pushing while the error is being reported
+		// (the library's OnError handlers block for a while): its items are
+		// accepted by the ring but must never run, the queue has failed
+		w.Push(func() error {
+			ranAfterError++
+			return nil
+		})
 	}
 	for i := 0; i < n; i++ {
 		i := i
@@ -71,6 +79,7 @@ func ZzC16Processor() {
 	} else {
 		zzAssert(onErr == 0, "no error reported when no callback failed")
 	}
+	zzAssert(ranAfterError == 0, "nothing pushed while the error is reported runs afterwards")
 	zzAssert(zzChanClosed(w.done), "consumer marked as finished when the loop returns")
 
 	// Close (consumer not running): cancels, closes the queue; nothing can be pulled afterwards
